@@ -72,6 +72,28 @@ REAL_STUB = {
     }
 }
 
+def _rs(real, simulated, absent):
+    return {'real': real, 'simulated': simulated, 'absent': absent}
+
+REAL_STUB.update({
+    'C08': _rs(['TranspositionTable (insert/probe/setBusy/clear/reSize/nextGeneration/updateTB), TBGenerator<TTStorage>', 'std::thread/mutex front ends of libstdc++'],
+               ['caller threads are harness threads under the baton scheduler; scheduler switch points between the two atomic accesses of every slot store/load (hook)', 'no search, no evaluation: payloads are synthetic unique records'],
+               ['search, UCI layer']),
+    'C12': _rs(['TBGenerator<TTStorage>, TBGenerator<VectorStorage>, TranspositionTable::updateTB/probeDTM/insert/probe/clear'],
+               ['virtual clock (clock reads are the generation\'s polling points)', 'stop request / expired time limit injected by a scheduler actor at an enumerated sim step', 'hash traffic is synthetic'],
+               ['search, UCI layer, external tablebase files']),
+    'C17': _rs(['UCIProtocol tokenizer/dispatch, TextIO::readFEN/uciStringToMove on the damaged command lines, whole engine behind them; PgnReader/PgnScanner/GameTree'],
+               ['stdin transport with byte-level faults; std::istream over a stream buffer that refills 1..k bytes, truncated/corrupted PGN bytes'],
+               ['move text / PGN round-trip half of C17 (not decided here)']),
+    'C18': _rs(['Book::getBookMove/getAllBookMoves/getBookEntries (std::fstream on real files), PolyglotBook::getMove/deSerialize/getHashKey, built-in book; in C18S the whole engine with OwnBook/BookFile'],
+               ['file layer: per-run polyglot files written, damaged, removed and replaced by the harness between probes and between searches; virtual clock (Book::rndGen seed)'],
+               ['dynamic I/O errors inside one probe (EIO, short reads)']),
+    'C19': _rs(['BookBuild::Book (addRootNode, addPosToBook, setSearchResult/updateScores, pending marks, writeToFile/readFromFile, writeBackup) and BookNode through the declared test friend'],
+               ['search results are injected (no engine searches); disk = backup log copied and cut at an arbitrary byte, then loaded into a fresh Book (crash-restart)'],
+               ['extendBook / SearchScheduler worker threads, PGN import, polyglot export']),
+    'C09': _rs(REAL_STUB['default']['real'] + ['ProofGameFilter with its ThreadPool (C09PG)'], REAL_STUB['default']['simulated'] + ['ThreadSanitizer build: the scheduler is not instrumented and adds no happens-before edges'], REAL_STUB['default']['absent']),
+})
+
 ASSUMPTIONS = {
     'default': ['pre-emption happens only at intercepted synchronisation calls, clock reads, stream appends, node ticks and TT access points',
                 'sequentially consistent interleavings at that granularity (no weak-memory reorderings beyond those listed in DESIGN.md 3.5)',
